@@ -227,11 +227,25 @@ class Img:
         rev = self.rev_bands
 
         class D:
+            """the disparity variable: two bands; arithmetic on the whole variable scales both ends (as xarray does)"""
+            def __init__(s, lo, hi):
+                s._lo, s._hi = lo, hi
+                # positional view of the variable (what `.data` of the DataArray gives): bands in coordinate order
+                s.data = (hi, lo) if rev else (lo, hi)
+
             def sel(s, band_disp):
-                return W(d[0] if band_disp == "min" else d[1])
-            # positional view of the variable (what `.data` of the DataArray gives): bands in coordinate order
-            data = (d[1], d[0]) if rev else (d[0], d[1])
-        return D()
+                return W(s._lo if band_disp == "min" else s._hi)
+
+            def __truediv__(s, k):
+                return D(_r(s._lo) / k, _r(s._hi) / k)
+
+            def __floordiv__(s, k):
+                return D(z3.ToReal(z3.ToInt(_r(s._lo) / k)), z3.ToReal(z3.ToInt(_r(s._hi) / k)))
+
+            def __mul__(s, k):
+                return D(_r(s._lo) * k, _r(s._hi) * k)
+            __rmul__ = __mul__
+        return D(d[0], d[1])
 
 
 class CV:
@@ -264,6 +278,8 @@ def _log(kind, cfg, side, **kw):
 
 def _r(x):
     """interval end -> z3 Real term"""
+    if hasattr(x, 'data') and not z3.is_expr(x):       # a selected band of the stub disparity variable
+        x = x.data
     if isinstance(x, (int, float)):
         return z3.RealVal(x)
     if z3.is_int(x):
